@@ -103,6 +103,20 @@ class MDT:
     def weekday(self):
         return (self.ordinal + 6) % 7
 
+    # calendar fields as attributes: uninterpreted functions of the ordinal; an obligation that needs their arithmetic ties them
+    # to the ordinal with the days-from-civil formula in its assumptions (see civil_axioms)
+    @property
+    def year(self):
+        return F_YEAR(self.ordinal)
+
+    @property
+    def month(self):
+        return F_MONTH(self.ordinal)
+
+    @property
+    def day(self):
+        return F_DAY(self.ordinal)
+
     def isocalendar(self):
         return (F_ISOYEAR(self.ordinal), F_ISOWEEK(self.ordinal), (self.ordinal + 6) % 7 + 1)
 
@@ -111,6 +125,12 @@ class MDT:
         y, m, d = MD.fresh('cy'), MD.fresh('cm'), MD.fresh('cd')
         br.assume(z3.And(y >= 1, y <= 9999 + 2, m >= 1, m <= 12, d >= 1, d <= month_days(y, m), dfc(y, m, d) == self.ordinal))
         return y, m, d
+
+
+def civil_axioms(ordinal, y, m, d):
+    """(y, m, d) are the calendar fields of `ordinal`, also as seen through the attribute / strftime functions."""
+    return z3.And(y >= 1, y <= 9999, m >= 1, m <= 12, d >= 1, d <= month_days(y, m), dfc(y, m, d) == ordinal,
+                  F_YEAR(ordinal) == y, F_MONTH(ordinal) == m, F_DAY(ordinal) == d)
 
 
 class MField:
@@ -191,11 +211,31 @@ class MRule:
         self.n = n
 
 
+RRULE_UNROLL = {'MONTHLY': 14, 'YEARLY': 5}
+
+
 def m_rrule(it, br, freq, dtstart=None, until=None):
     from dateutil import rrule
-    if freq != rrule.DAILY:
-        raise Unsupported('rrule frequency other than DAILY (third-party iteration: outside the claim)')
     a, b = lift(dtstart), lift(until)
+    if freq in (rrule.MONTHLY, rrule.YEARLY):
+        # RFC 5545 / dateutil: occurrences are dtstart moved by k months (years) keeping the day of the month; a k whose month
+        # has no such day is SKIPPED (not clipped).  Bounded unrolling with an unwinding assertion.
+        monthly = freq == rrule.MONTHLY
+        K_ = RRULE_UNROLL['MONTHLY' if monthly else 'YEARLY']
+        y, m, d = a.civil(br)
+        step = 1 if monthly else 12
+        terms = []
+        for k in range(K_ + 2):
+            total = y * 12 + (m - 1) + k * step
+            yk, mk = total / 12, total % 12 + 1
+            if k == K_ + 1:
+                if br.decide(z3.And(yk <= 9999, dfc(yk, mk, 1) <= b.ordinal)):
+                    raise Raised('UNWIND_EXCEEDED')
+                break
+            terms.append(z3.If(z3.And(yk <= 9999, d <= month_days(yk, mk), dfc(yk, mk, z3.If(d <= month_days(yk, mk), d, 1)) <= b.ordinal), 1, 0))
+        return MRule(z3.Sum(terms))
+    if freq != rrule.DAILY:
+        raise Unsupported('rrule frequency other than DAILY / MONTHLY / YEARLY')
     # both at the same time of day in all uses: count = days between + 1 (0 if until < dtstart)
     n = b.ordinal - a.ordinal + 1
     return MRule(z3.If(n < 0, 0, n))
